@@ -33,6 +33,14 @@ THEOREMS = [
     "PorepyVerif.C25.split_normals_opposite",
     "PorepyVerif.C25.mortar_side_counts",
     "PorepyVerif.C25.mortar_after_split",
+    "PorepyVerif.C25.nodes_on_line_eq",
+    "PorepyVerif.C25.node_index_injective",
+    "PorepyVerif.C25.nodes_on_line_exact",
+    "PorepyVerif.C25.plane_faces_exact",
+    "PorepyVerif.C25.plane_nodes_exact",
+    "PorepyVerif.C25.node_components",
+    "PorepyVerif.C25.split_nodes_count",
+    "PorepyVerif.C25.node_copy_of_cell",
 ]
 LEAN_MODULES = ["PorepyVerif.C25.Props"]
 AUDIT = "PorepyVerif/C25/Audit.lean"
@@ -43,26 +51,33 @@ RULE = ("kinds: cart2 (45%): pp.meshing.cart_grid / pp.create_mdg('cartesian') (
         "node coordinates (20%) on 2-6 x 2-6 cells of dyadic size with 1-3 axis-aligned line "
         "fractures whose end points are grid nodes (10%: moved off the nodes by < 0.3 cell so that snapping is exercised), interior lines only, "
         "ends on the domain boundary allowed; a third of the cases are built as X / T / L patterns, the rest random (collinear overlapping fractures "
-        "excluded). cart3 (45%): 2-4 cells per direction, 1-3 axis-aligned rectangles on interior grid planes, X / T / L and random. "
+        "excluded). cart3 (45%): 2-4 cells per direction (40%: nx, ny, nz pairwise different, e.g. 2x5x3; in 2-D 40% nx != ny), 1-3 axis-aligned rectangles on interior grid planes, X / T / L and random. "
         "simplex (corpus: 2 cases, quick: 4%, thorough: 10%): gmsh triangle / tetrahedral meshes of the unit square / cube with 1-3 fractures "
         "(X, T, L, boundary-touching) - oracle only. non-trivial = at least two fractures that meet, or a fracture touching the boundary; "
         "distinct = distinct cases")
 TRUSTED = [
-    "modelled, not verified: gmsh and msh_2_grid (simplex cases are oracle-only), structured._cart_grid_2d/_3d (which faces belong to a fracture), "
-    "_assemble_mdg's node-set matching of lower-dimensional cells to host faces (its output, one host face per cell, is INPUT of the model)",
-    "modelled, not verified: split_nodes / duplicate_nodes (networkx connected components); the oracle checks its effect geometrically "
-    "(face nodes of a split face coincide with the nodes of the coupled cell)",
+    "modelled, not verified: gmsh and msh_2_grid (simplex cases are oracle-only); FractureNetwork3d (which intersection lines exist in 3-D structured grids; "
+    "their node sets ARE modelled: findNodesOnLine); the nearest-node searches (np.argmin of distances) that turn end points into node indices; "
+    "create_embedded_line_grid / _create_embedded_2d_grid (geometry of the lower-dimensional grids)",
+    "_assemble_mdg's node-set matching of lower-dimensional cells to host faces: its output (one host face per cell) is INPUT of the splitting model; "
+    "for 3-D fractures it is tied to the structured model by the correspondence (matched host faces = planeFaces)",
+    "pp.TensorGrid numbering of nodes and faces and face centres (nodeIdx, faceIndex, center in the model) - tied by the correspondence on non-cubic grids",
+    "networkx.connected_components is modelled by min-label propagation (|cluster| rounds + convergence check; components ordered by their smallest cell): "
+    "convergence itself is checked at run time by the model (stable), not proved",
     "the side flag (cell centre - face centre) . normal <= 0 of update_cell_connectivity is input data of the model (computed by the harness with exact rationals)",
     "scipy sparse format conversions (csc/csr, nonzero ordering, merge_matrices / stack_mat) are modelled as row lists of the incidence matrix",
 ]
-EXPLANATION = ("CORE: Lean model = face-splitting bookkeeping of split_faces over a list of fractures (all branches: nothing to duplicate, fracture on the boundary -> duplicates removed, "
-               "ValueError, assertion, split) + mortar cell ordering of create_interfaces/_init_projections. Theorems over ALL inputs: cells_preserved (any run that does not raise), "
-               "tags_mark_coupled(_of_aligned), and for valid inputs (Host.Valid: fracture faces that carry no tag are interior with one cell per side, fracture face sets disjoint, one host "
-               "face per lower-dimensional cell) split_face_pairs (no error; exactly two coupled faces f and its duplicate d with one incident cell each, exactly one where the host is tagged "
-               "= ends at another fracture), split_normals_opposite, mortar_side_counts and mortar_after_split (two sides of nLow cells, side one on the original faces, side two on the duplicates; "
-               "one side at T/L ends). Proof by an invariant of the loop of split_faces (Lemmas.lean: Inv / Done). "
-               "Correspondence ties the model to cart_grid / tensor_grid / create_mdg on every hosting subdomain (3d->2d, 2d->1d, 1d->0d); the geometric statements (centres, measures, outward "
-               "normals, volume, containment, node splitting) and all simplex cases are decided by the oracle only.")
+EXPLANATION = ("CORE: three Lean models. (A) split_faces over a list of fractures (all branches: nothing to duplicate, fracture on the boundary -> duplicates removed, "
+               "ValueError, assertion, split) + mortar cell ordering of create_interfaces/_init_projections: cells_preserved (any run that does not raise), "
+               "tags_mark_coupled(_of_aligned), and for valid inputs (Host.Valid) split_face_pairs, split_normals_opposite, mortar_side_counts, mortar_after_split; proof by an "
+               "invariant of the loop (Lemmas.lean: Inv / Done). (B) structured generators: _find_nodes_on_line (np.arange with strides 1, nx+1, (nx+1)(ny+1)): nodes_on_line_eq / "
+               "nodes_on_line_exact / node_index_injective for ALL nx, ny and the three directions; the face selection of _create_lower_dim_grids_3d (half-space test with the edge "
+               "normals and is_ccw_polygon as coded, tolerance test) over exact rationals: plane_faces_exact / plane_nodes_exact (exactly the grid faces / nodes on the rectangle, "
+               "any of the 8 vertex orders, all grid sizes, all strictly increasing node coordinates, tolerance < half a cell). (C) duplicate_nodes: node_components (labels = connected "
+               "components of the cell neighbourhood minus the split faces), split_nodes_count (added nodes = sum of (components - 1); faces keep their node count), node_copy_of_cell. "
+               "Correspondence ties (A), (B), (C) to cart_grid / tensor_grid / create_mdg on every hosting subdomain (3d->2d, 2d->1d, 1d->0d), with a stratum of grids whose "
+               "nx, ny, nz are pairwise different and direct calls of _find_nodes_on_line along all axes; the geometric statements (centres, measures, outward normals, volume, "
+               "containment) and all simplex cases are decided by the oracle only.")
 ASSUMPTIONS = [
     "fracture networks are valid: fractures lie on interior grid lines / planes, no two fractures share a host face, every fracture has positive measure",
     "geometric comparisons use tolerance 1e-10 (relative to the domain size)",
@@ -179,6 +194,13 @@ def _rows(cf):
     return out
 
 
+def _raw_face_nodes(sd):
+    """columns of face_nodes in STORED order (no sorting: duplicate_nodes rewrites the stored indices in place)"""
+    m = sd.face_nodes
+    assert m.getformat() == "csc"
+    return [[int(i) for i in m.indices[m.indptr[f]:m.indptr[f + 1]]] for f in range(m.shape[1])]
+
+
 def _cols_of(fc):
     """face_cells (low cells x host faces) -> per host face the list of low cells."""
     m = fc.tocsc().copy()
@@ -246,9 +268,83 @@ def _unsplit0(case):
                 for k, (c, _s) in enumerate(rows[f]):
                     d = sum((ccent[c][j] - centers[f0][j]) * normals[f0][j] for j in range(3))
                     left[f][k] = 1 if d <= 0 else 0
-        hosts.append({"key": _key(sd), "nF": nF, "nC": int(sd.num_cells), "rows": rows, "left": left, "tags": tags, "normals": normals, "fcs": fcs})
+        # nodes that split_fractures hands to split_nodes: the nodes of the lower-dimensional neighbours, in the host's numbering
+        gpi = [int(i) for i in np.atleast_1d(sd.global_point_ind)]
+        where = {gl: loc for loc, gl in enumerate(gpi)}
+        assert len(where) == len(gpi)
+        split_nodes = sorted({where[int(i)] for low, _ in neigh for i in np.atleast_1d(low.global_point_ind)})
+        hosts.append({"key": _key(sd), "nF": nF, "nC": int(sd.num_cells), "rows": rows, "left": left, "tags": tags, "normals": normals, "fcs": fcs,
+                      "nN": int(sd.num_nodes), "fn": _raw_face_nodes(sd), "split_nodes": split_nodes, "gpi": gpi})
     hosts.sort(key=lambda h: h["key"])
-    return hosts
+    ops, impl = _struct_layer(case, subdomains, pairs, fr, phys)
+    return {"hosts": hosts, "struct_ops": ops, "struct_impl": impl}
+
+
+def _struct_layer(case, subdomains, pairs, fr, phys):
+    """The index arithmetic of the structured generators: what the real code produced (node sets of the fracture / intersection
+    grids, host faces of every fracture, direct calls of _find_nodes_on_line) and the ops that make the Lean model reproduce it."""
+    import random
+    from porepy.fracs import structured
+
+    D = case["dim"]
+    n = [int(v) for v in case["nx"]]
+    top = subdomains[0][0]
+    nodes = top.nodes
+
+    def nearest(pt):
+        pt = np.asarray(pt, dtype=float).reshape(-1)
+        if pt.size == 2:
+            pt = np.append(pt, 0.0)
+        return int(np.argmin(np.sum((nodes - pt.reshape(3, 1)) ** 2, axis=0)))
+
+    def axis_of(a, b):
+        d = np.abs(nodes[:, a] - nodes[:, b])
+        return int(np.argmax(d))
+
+    ops, impl = [], []
+    ny = n[1]
+    if D == 2:
+        for g in subdomains[1]:
+            f = fr[int(g.frac_num)]
+            s, e = nearest(f[:, 0]), nearest(f[:, 1])
+            ops.append({"op": "line", "nx": n[0], "ny": ny, "axis": 0 if f[1, 0] == f[1, 1] else 1, "s": s, "e": e})
+            impl.append(sorted(int(i) for i in np.atleast_1d(g.global_point_ind)))
+    else:
+        nxa = np.asarray(n, dtype=float)
+        xs = [sorted(set(float(v) for v in nodes[d])) for d in range(3)]
+        for g in subdomains[1]:
+            f = fr[int(g.frac_num)]
+            if "xs" in case:
+                f_s = np.array([nodes[:, nearest(f[:, m])] for m in range(4)]).T
+                tol = 1e-5 / nxa
+            else:
+                f_s = np.round(f * nxa[:, None] / phys[:, None]) * phys[:, None] / nxa[:, None]
+                tol = 0.1 * phys / nxa
+            o = 2 if np.allclose(f[2, 0], f[2]) else (1 if np.allclose(f[1, 0], f[1]) else 0)
+            act = [d for d in range(3) if d != o]
+            ops.append({"op": "plane", "n": n, "xs": [[frac(v) for v in c] for c in xs], "o": o, "p": frac(float(f_s[o, 0])), "tol": frac(float(tol[o])),
+                        "P": [[frac(float(f_s[act[0], m])), frac(float(f_s[act[1], m]))] for m in range(4)]})
+            m = pairs[(top, g)]
+            impl.append({"faces": sorted(set(int(c) for c in m.tocsc().nonzero()[1])), "nodes": sorted(set(int(i) for i in g.global_point_ind))})
+        for g in subdomains[2]:
+            gp = sorted(int(i) for i in np.atleast_1d(g.global_point_ind))
+            ops.append({"op": "line", "nx": n[0], "ny": ny, "axis": axis_of(gp[0], gp[-1]), "s": gp[-1], "e": gp[0]})
+            impl.append(gp)
+    # direct calls of _find_nodes_on_line along every axis (both orders of the end points)
+    rl = random.Random(json.dumps(case, sort_keys=True))
+    for axis in range(D):
+        idx = [rl.randint(0, n[d]) for d in range(D)]
+        a, b = sorted(rl.sample(range(n[axis] + 1), 2))
+        ia, ib = list(idx), list(idx)
+        ia[axis], ib[axis] = a, b
+        lin = lambda t: t[0] + t[1] * (n[0] + 1) + (t[2] * (n[0] + 1) * (n[1] + 1) if D == 3 else 0)
+        s, e = lin(ia), lin(ib)
+        if rl.random() < 0.5:
+            s, e = e, s
+        real = structured._find_nodes_on_line(top, np.asarray(n), nodes[:, s].copy(), nodes[:, e].copy())
+        ops.append({"op": "line", "nx": n[0], "ny": ny, "axis": axis, "s": s, "e": e})
+        impl.append([int(v) for v in real])
+    return ops, impl
 
 
 # ------------------------------------------------------------------------------------------------ implementation runner
@@ -257,6 +353,13 @@ def _mortar_rows(mat):
     m.eliminate_zeros()
     m.sort_indices()
     return [[int(j) for j in m.indices[m.indptr[r]:m.indptr[r + 1]]] for r in range(m.shape[0])]
+
+
+def _new2old(sd, h):
+    """old node index of every node of the split host (global_point_ind is carried along by duplicate_nodes)"""
+    un_gpi = h["gpi"]
+    where = {gl: loc for loc, gl in enumerate(un_gpi)}
+    return [where[int(i)] for i in np.atleast_1d(sd.global_point_ind)]
 
 
 def impl_run(case):
@@ -268,13 +371,16 @@ def impl_run(case):
         return {"build_raises": type(e).__name__}
     by_key = {_key(sd): sd for sd in mdg.subdomains()}
     out = []
-    for h in _unsplit(case):
+    un = _unsplit(case)
+    for h in un["hosts"]:
         sd = by_key[h["key"]]
         o = {"key": list(map(str, h["key"])), "nF": int(sd.num_faces), "nC": int(sd.num_cells), "inc": _rows(sd.cell_faces),
              "frac": [int(b) for b in sd.tags["fracture_faces"]], "tip": [int(b) for b in sd.tags["tip_faces"]],
              "dom": [int(b) for b in sd.tags["domain_boundary_faces"]],
              "pairs": [[int(a), int(b)] for a, b in zip(*np.asarray(sd.frac_pairs).reshape(2, -1))] if hasattr(sd, "frac_pairs") else [],
-             "normals": [[frac(float(x)) for x in sd.face_normals[:, f]] for f in range(sd.num_faces)], "ifaces": []}
+             "normals": [[frac(float(x)) for x in sd.face_normals[:, f]] for f in range(sd.num_faces)], "ifaces": [],
+             "nodes": {"nN": int(sd.num_nodes), "face_nodes": _raw_face_nodes(sd),
+                       "new2old": [int(i) for i in _new2old(sd, h)]}}
         for fcd in h["fcs"]:
             low = by_key[fcd["key"]]
             intf = mdg.subdomain_pair_to_interface((sd, low))
@@ -285,7 +391,7 @@ def impl_run(case):
             o["ifaces"].append({"fc": [c[0] if len(c) == 1 else (-1 if not c else c) for c in cols], "sides": int(intf.num_sides()),
                                 "mcells": [[s[0] if len(s) == 1 else s, p[0] if len(p) == 1 else p] for s, p in zip(S, P)]})
         out.append(o)
-    return out
+    return {"hosts": out, "struct": un["struct_impl"]}
 
 
 # ------------------------------------------------------------------------------------------------ model side
@@ -293,7 +399,8 @@ def model_ops(case):
     if case["kind"] != "cart":
         return []
     ops = []
-    for h in _unsplit(case):
+    un = _unsplit(case)
+    for h in un["hosts"]:
         ops.append({"op": "split", "nF": h["nF"],
                     "inc": [[[c, s, l] for (c, s), l in zip(r, lf)] for r, lf in zip(h["rows"], h["left"])],
                     "frac": [int(b) for b in h["tags"]["fracture"]], "tip": [int(b) for b in h["tags"]["tip"]],
@@ -302,14 +409,16 @@ def model_ops(case):
                     "fcs": [f["lf"] for f in h["fcs"]]})
         for i, f in enumerate(h["fcs"]):
             ops.append({"op": "mortar", "i": i, "nlow": f["nlow"]})
-    return ops
+        ops.append({"op": "nodes", "nN": h["nN"], "nC": h["nC"], "face_nodes": h["fn"], "split": h["split_nodes"]})
+    return ops + un["struct_ops"]
 
 
 def model_decode(outs, case):
     if case["kind"] != "cart":
         return {"oracle_only": True}
     res, k = [], 0
-    for h in _unsplit(case):
+    un = _unsplit(case)
+    for h in un["hosts"]:
         o = dict(outs[k])
         k += 1
         o["key"] = list(map(str, h["key"]))
@@ -326,8 +435,10 @@ def model_decode(outs, case):
                 o["ifaces"].append(m)
         else:
             k += len(h["fcs"])
+        o["nodes"] = outs[k]
+        k += 1
         res.append(o)
-    return res
+    return {"hosts": res, "struct": list(outs[k:])}
 
 
 def compare(impl, model, case):
@@ -441,6 +552,12 @@ def _gen_cart(rng, tier, D):
     if tier == "thorough" and rng.random() < 0.15:
         hi += 2 if D == 2 else 1
     n = [rng.randint(2, hi) for _ in range(D)]
+    if D == 3 and rng.random() < 0.4:  # stratum: nx, ny, nz pairwise different (index strides of the three directions all differ)
+        n = rng.choice([[2, 3, 4], [2, 3, 5], [3, 4, 5], [2, 4, 5], [2, 4, 3]])[:]
+        rng.shuffle(n)
+    if D == 2 and rng.random() < 0.4:
+        while n[0] == n[1]:
+            n[1] = rng.randint(2, hi)
     h = [F(rng.choice([1, 1, 1, 2, 3, 5]), rng.choice([1, 1, 2, 4, 8])) for _ in range(D)]
     nfr = rng.choice([1, 2, 2, 3, 3])
     pattern = rng.choice(["X", "T", "L", "rand", "rand", "rand"])
@@ -896,16 +1013,18 @@ def shrink_candidates(case):
 
 
 def stats(cases, impl_outs):
-    st = {"cart2": 0, "cart3": 0, "simplex2": 0, "simplex3": 0, "create_mdg_entry": 0, "tensor": 0, "n_fracs": {}, "hosts": 0, "interfaces": 0, "two_sided": 0, "one_sided": 0,
+    st = {"cart2": 0, "cart3": 0, "simplex2": 0, "simplex3": 0, "create_mdg_entry": 0, "tensor": 0, "n_pairwise_different": 0, "n_fracs": {}, "hosts": 0, "interfaces": 0, "two_sided": 0, "one_sided": 0,
           "host_dims": {}}
     for c, o in zip(cases, impl_outs):
         st[("cart" if c["kind"] == "cart" else "simplex") + str(c["dim"])] += 1
         st["create_mdg_entry"] += c.get("entry") == "create_mdg"
         st["tensor"] += "xs" in c
+        st["n_pairwise_different"] += c["kind"] == "cart" and len(set(c["nx"])) == len(c["nx"])
         k = str(len(c["fracs"]))
         st["n_fracs"][k] = st["n_fracs"].get(k, 0) + 1
-        if isinstance(o, list):
-            for h in o:
+        if isinstance(o, dict) and "hosts" in o:
+            st["struct_checks"] = st.get("struct_checks", 0) + len(o["struct"])
+            for h in o["hosts"]:
                 st["hosts"] += 1
                 d = h["key"][0]
                 st["host_dims"][d] = st["host_dims"].get(d, 0) + 1
